@@ -24,7 +24,9 @@ pub fn entry() -> crate::Entry {
     crate::Entry { id: "C07", run, space, replay }
 }
 
-const NAMES: [&str; 2] = ["Sheet1", "Sheet2"];
+/// the third title differs from the first ONLY IN CASE: the library accepts it, and an edit addressed to "Sheet1" by
+/// name is not addressed to it
+const NAMES: [&str; 3] = ["Sheet1", "Sheet2", "SHEET1"];
 const DEFAULT_COL_WIDTH: f64 = 8.38;
 /// violations kept per (clause, symptom, tags) class inside one pool case (the rest is counted)
 const KEEP_PER_CLASS_PER_CASE: u32 = 3;
@@ -408,7 +410,7 @@ const SEED_NAMES: [&str; 6] = ["empty", "dense", "annotated", "grid-limits", "de
 /// seeds 4 and 5 are seeds 1 and 2 as the READER leaves them (saved to memory and loaded again)
 const RELOADED_OF: [Option<usize>; 6] = [None, None, None, None, Some(1), Some(2)];
 
-fn seed_specs(seed: usize) -> [SheetSpec; 2] {
+fn seed_specs(seed: usize) -> [SheetSpec; 3] {
     let first = match seed {
         0 => SheetSpec::default(),
         1 => {
@@ -460,7 +462,22 @@ fn seed_specs(seed: usize) -> [SheetSpec; 2] {
             filter: None,
         },
     };
-    [first, other_sheet_spec()]
+    [first, other_sheet_spec(), case_twin_spec()]
+}
+
+/// the small third sheet (its title is the first sheet's in another case)
+fn case_twin_spec() -> SheetSpec {
+    SheetSpec {
+        cells: vec![cs(1, 1).t("t-A1"), cs(2, 2).n(5.0).st(1), cs(3, 4).t("t-D3").l("https://example.com/t")],
+        rows: vec![(2, 19.0, false)],
+        cols: vec![(3, 13.0, false)],
+        row_styles: vec![],
+        col_styles: vec![],
+        merges: vec![rc("A3:B4")],
+        comments: vec![(2, 2, "t-note-B2")],
+        cfs: vec![(9, vec![rc("B2:C3")])],
+        filter: None,
+    }
 }
 
 fn build_seed(seed: usize) -> (Spreadsheet, RefBook) {
